@@ -46,6 +46,8 @@ fn disk_corpus(include_invalid: bool) -> Vec<String> {
     let mut v = corpus::regress_specs();
     v.extend(corpus::fixture_specs(include_invalid));
     v.extend(corpus::real_specs());
+    // hand-written shapes (segments, globals, ref.func declarations, multi-memory/-table edges)
+    v.extend(corpus::gcedge_specs());
     v
 }
 
@@ -128,6 +130,10 @@ pub fn cases(prop: &str, tier: Tier, seed: u64) -> Vec<CaseDesc> {
             for (i, b) in g("tiny", 6, 200).into_iter().enumerate() {
                 base.push(format!("dwarf:{}:{}:{}", if i % 2 == 0 { 4 } else { 5 }, ["f", "s", "z"][i % 3], b));
             }
+            // DWARF on modules without any local function (data only, imports only)
+            for (i, g) in ["active_data_root.wat", "active_data_imported_memory.wat", "global_init_global_get.wat", "elem_funcref_expr_global_get.wat"].iter().enumerate() {
+                base.push(format!("dwarf:{}:f:gcedge:{}", 4 + (i % 2), g));
+            }
             base.push("dwarf:4:f:leb:2:127:0".to_string());
             base.push("dwarf:5:s:leb:129:60:0".to_string());
             base.extend(g("names", 10, 500));
@@ -164,6 +170,8 @@ pub fn cases(prop: &str, tier: Tier, seed: u64) -> Vec<CaseDesc> {
             let mut bases: Vec<String> = crate::census::leb_specs(!q);
             bases.extend(g("tiny", 40, 500));
             bases.extend(g("full", 30, 500));
+            bases.push("gcedge:active_data_root.wat".to_string());
+            bases.push("gcedge:elem_funcref_expr_global_get.wat".to_string());
             let mut i = 0usize;
             for b in &bases {
                 for (ver, mode) in [(4, "f"), (5, "f"), (4, "s"), (5, "s"), (5, "z")] {
